@@ -48,7 +48,7 @@ ASSUMPTIONS = ['pointer comparison is on unsigned 64-bit addresses (x86-64)',
                'long double cdata have no Python value: comparisons may raise NotImplementedError (documented)',
                'hash of NaN values is identity-based in CPython >= 3.10 and is not compared',
                'char32_t / wchar_t values are valid code points (others have no Python value)']
-BUDGET = {'quick': 1200, 'thorough': 200000}
+BUDGET = {'quick': 1200, 'thorough': 60000}
 TIME = {'quick': 15, 'thorough': 600}
 MIN_PER_SHARD = 20
 
